@@ -67,8 +67,8 @@ def selftest(ctx):
     for i, ln in enumerate(lines):
         t = json.loads(ln)
         f = bytes(t["filt"])
-        if t["p"] in (1, 4, 5) and b"&lt;script" in f and i % 3 == 0:
-            t["filt"] = list(f.replace(b"&lt;script", b"<script", 1)); t["plain"] = t["plain"]; bad += 1   # the filter let it through
+        if t["p"] in (1, 4, 5) and i % 20 == 3:
+            t["plain"] = list(b"<p>x <script>alert(1)</script></p>"); t["filt"] = list(t["plain"]); bad += 1   # the filter let a rejected element through
         elif i % 40 == 7 and len(f) > 3:
             t["filt"] = list(f[:-2] + b"x" + f[-2:]); bad += 1                                              # more than '<' changed
         out.append(json.dumps(t))
